@@ -115,31 +115,26 @@ Proof.
 Qed.
 
 (* decimal digit strings *)
+Definition leading_zero (s : str) : bool := match s with c :: _ :: _ => c =? 48 | _ => false end.
+
 Lemma py_unsigned_dec s : Forall is_dec_char s -> s <> [] ->
   py_int0_unsigned s =
   if Z.of_nat (length s) >? 4300 then None
-  else match s with
-       | 48 :: _ :: _ => if all_zero s then Some 0 else None
-       | _ => Some (digits_value 10 s)
-       end.
+  else if leading_zero s then (if all_zero s then Some 0 else None)
+  else Some (digits_value 10 s).
 Proof.
   intros HF Hne. destruct s as [|c1 [|c2 t]]; [congruence | |].
-  - rewrite py_unsigned_single. change (Z.of_nat (length [c1]) >? 4300) with false. cbv iota.
-    destruct c1 as [|p|p]; try reflexivity. do 6 (destruct p as [p|p|]; try reflexivity).
-  - rewrite py_unsigned_cons2. unfold max_str_digits.
+  - rewrite py_unsigned_single. reflexivity.
+  - rewrite py_unsigned_cons2. unfold max_str_digits. cbn [leading_zero].
     inversion HF as [|? ? H1 HF1]; subst. inversion HF1 as [|? ? H2 _]; subst.
     unfold is_dec_char in H1, H2.
     replace (c2 =? 120) with false by lia. replace (c2 =? 98) with false by lia.
-    destruct (c1 =? 48) eqn:E1.
-    + apply Z.eqb_eq in E1. subst c1.
-      destruct (Z.of_nat (length (48 :: c2 :: t)) >? 4300) eqn:El.
-      * replace (Z.of_nat (length (48 :: c2 :: t)) <=? 4300) with false by lia.
-        rewrite andb_false_r. reflexivity.
-      * replace (Z.of_nat (length (48 :: c2 :: t)) <=? 4300) with true by lia.
-        rewrite andb_true_r. reflexivity.
-    + destruct (Z.of_nat (length (c1 :: c2 :: t)) >? 4300); [reflexivity|].
-      destruct c1 as [|p|p]; try reflexivity. do 6 (destruct p as [p|p|]; try reflexivity).
-      discriminate E1.
+    destruct (c1 =? 48) eqn:E1; [|reflexivity].
+    destruct (Z.of_nat (length (c1 :: c2 :: t)) >? 4300) eqn:El.
+    + replace (Z.of_nat (length (c1 :: c2 :: t)) <=? 4300) with false by lia.
+      rewrite andb_false_r. reflexivity.
+    + replace (Z.of_nat (length (c1 :: c2 :: t)) <=? 4300) with true by lia.
+      rewrite andb_true_r. reflexivity.
 Qed.
 
 (* the characters of a decimal rendering *)
@@ -172,16 +167,31 @@ Proof.
   apply horner_digits_value. exact H.
 Qed.
 
-Lemma pow10_4300 z : z < 10 ^ 4300 -> z < 10 ^ Z.of_nat 4300.
+(* 10^4300 is kept folded in the proofs so that lia never computes it *)
+Definition dec_limit : Z := 10 ^ 4300.
+
+Lemma pow10_4300 z : z < dec_limit -> z < 10 ^ Z.of_nat 4300.
 Proof. intros H. exact H. Qed.
 
-Lemma py_unsigned_fmt_nat z : 0 <= z < 10 ^ 4300 -> py_int0_unsigned (fmt_nat 10 z) = Some z.
+Lemma dec_limit_big : 4294967296 < dec_limit.
+Proof.
+  unfold dec_limit. assert (H : 10 ^ 10 <= 10 ^ 4300) by (apply Z.pow_le_mono_r; [reflexivity | discriminate]).
+  eapply Z.lt_le_trans; [|exact H]. reflexivity.
+Qed.
+
+Lemma nat_1_le_4300 : (1 <= 4300)%nat.
+Proof. apply Nat.leb_le. reflexivity. Qed.
+
+Lemma py_unsigned_fmt_nat z : 0 <= z < dec_limit -> py_int0_unsigned (fmt_nat 10 z) = Some z.
 Proof.
   intros Hz.
   pose proof (fmt_nat_dec_chars z (proj1 Hz)) as HF.
   pose proof (fmt_nat_nonempty 10 z) as Hne.
-  pose proof (fmt_nat_length 10 z 4300 ltac:(lia) (conj (proj1 Hz) (pow10_4300 _ (proj2 Hz))) ltac:(lia)) as Hl.
+  assert (H2 : 2 <= 10) by lia.
+  pose proof (fmt_nat_length 10 z 4300 H2 (conj (proj1 Hz) (pow10_4300 _ (proj2 Hz))) nat_1_le_4300) as Hl.
   rewrite py_unsigned_dec by assumption.
+  assert (Hl' : Z.of_nat (length (fmt_nat 10 z)) <= 4300).
+  { change 4300 with (Z.of_nat 4300). apply Nat2Z.inj_le. exact (proj2 Hl). }
   replace (Z.of_nat (length (fmt_nat 10 z)) >? 4300) with false by lia.
   destruct (fmt_nat_roundtrip_lem 10 z ltac:(lia) (proj1 Hz)) as (_ & H0 & Hp).
   destruct (Z.eq_dec z 0) as [->|Hnz].
@@ -189,9 +199,8 @@ Proof.
   - destruct (Hp ltac:(lia)) as (c & t & E & Hc).
     assert (Hv : digits_value 10 (fmt_nat 10 z) = z) by (apply digits_value_fmt_nat; lia).
     rewrite E in *.
-    destruct c as [|p|p]; try (rewrite Hv; reflexivity).
-    do 6 (destruct p as [p|p|]; try (rewrite Hv; reflexivity)).
-    congruence.
+    replace (leading_zero (c :: t)) with false; [rewrite Hv; reflexivity|].
+    destruct t; cbn [leading_zero]; [reflexivity | lia].
 Qed.
 
 Lemma fmt_nat_head_not_minus z : 0 <= z -> exists c t, fmt_nat 10 z = c :: t /\ 48 <= c <= 57.
@@ -202,7 +211,7 @@ Proof.
 Qed.
 
 (* 1a. decimal renderings read back *)
-Lemma py_int0_str_dec : forall z, - 10 ^ 4300 < z < 10 ^ 4300 -> py_int0 (str_dec z) = Some z.
+Lemma py_int0_str_dec : forall z, - dec_limit < z < dec_limit -> py_int0 (str_dec z) = Some z.
 Proof.
   intros z Hz. unfold str_dec, fmt_int. destruct (z <? 0) eqn:E.
   - rewrite py_int0_cons. change (45 =? 45) with true. cbv iota.
@@ -212,20 +221,150 @@ Proof.
     replace (c =? 45) with false by lia. reflexivity.
 Qed.
 
-Lemma py_int0_neg_str_dec : forall z, 0 <= z < 10 ^ 4300 -> py_int0 (45 :: str_dec z) = Some (- z).
+Lemma py_int0_neg_str_dec : forall z, 0 <= z < dec_limit -> py_int0 (45 :: str_dec z) = Some (- z).
 Proof.
   intros z Hz. rewrite py_int0_cons. change (45 =? 45) with true. cbv iota.
   unfold str_dec, fmt_int. replace (z <? 0) with false by lia.
   rewrite py_unsigned_fmt_nat by lia. reflexivity.
 Qed.
 
-Lemma small_lt_pow z : z < 4294967296 -> z < 10 ^ 4300.
-Proof.
-  intros H. assert (10 ^ 10 <= 10 ^ 4300) by (apply Z.pow_le_mono_r; lia).
-  change (10 ^ 10) with 10000000000 in *. lia.
-Qed.
-
 Lemma py_int0_str_dec_small z : -4294967296 < z < 4294967296 -> py_int0 (str_dec z) = Some z.
 Proof.
-  intros H. apply py_int0_str_dec. pose proof (small_lt_pow z). pose proof (small_lt_pow (- z)). lia.
+  intros H. apply py_int0_str_dec. pose proof dec_limit_big. lia.
+Qed.
+
+(* 1b. hexadecimal and binary literals, either sign *)
+Lemma py_int0_hex_lem : forall h, Forall is_hex_char h ->
+  py_int0 (48 :: 120 :: h) = Some (positional 16 (map hex_digit h)) /\
+  py_int0 (45 :: 48 :: 120 :: h) = Some (- positional 16 (map hex_digit h)).
+Proof.
+  intros h HF. rewrite !py_int0_cons. change (48 =? 45) with false. change (45 =? 45) with true. cbv iota.
+  rewrite py_unsigned_cons2. change (48 =? 48) with true. change (120 =? 120) with true. cbv iota.
+  rewrite digits_value_positional.
+  rewrite (map_ext_Forall is_hex_char hexval hex_digit h hexval_hex HF). split; reflexivity.
+Qed.
+
+Lemma hexval_bin c : is_bin_char c -> hexval c = dec_digit c.
+Proof. intros [-> | ->]; reflexivity. Qed.
+
+Lemma py_int0_bin_lem : forall b, Forall is_bin_char b ->
+  py_int0 (48 :: 98 :: b) = Some (positional 2 (map dec_digit b)) /\
+  py_int0 (45 :: 48 :: 98 :: b) = Some (- positional 2 (map dec_digit b)).
+Proof.
+  intros b HF. rewrite !py_int0_cons. change (48 =? 45) with false. change (45 =? 45) with true. cbv iota.
+  rewrite py_unsigned_cons2. change (48 =? 48) with true. change (98 =? 120) with false.
+  change (98 =? 98) with true. cbv iota.
+  rewrite digits_value_positional.
+  rewrite (map_ext_Forall is_bin_char hexval dec_digit b hexval_bin HF). split; reflexivity.
+Qed.
+
+(* 1c. decimal digit strings in general *)
+Lemma all_zero_false s : all_zero s = false <-> exists c, In c s /\ c <> 48.
+Proof.
+  induction s as [|x t IH]; cbn [all_zero forallb In].
+  - split; [discriminate | intros (c & [] & _)].
+  - fold (all_zero t). destruct (x =? 48) eqn:E; cbn [andb].
+    + rewrite IH. split; intros (c & Hc & Hn); exists c; [tauto|].
+      destruct Hc as [<- | Hc]; [lia | tauto].
+    + split; [|reflexivity]. intros _. exists x. split; [left; reflexivity | lia].
+Qed.
+
+Lemma dec_head_not_minus s : Forall is_dec_char s -> py_int0 s = py_int0_unsigned s.
+Proof.
+  intros HF. destruct s as [|c t]; [reflexivity|]. rewrite py_int0_cons.
+  inversion HF as [|? ? Hc _]; subst. unfold is_dec_char in Hc. replace (c =? 45) with false by lia.
+  reflexivity.
+Qed.
+
+Lemma py_int0_dec_lem : forall s, Forall is_dec_char s -> s <> [] ->
+  (* no leading zero (or a single character): the decimal value, up to 4300 digits *)
+  (Z.of_nat (length s) <= 4300 -> leading_zero s = false ->
+     py_int0 s = Some (positional 10 (map dec_digit s)) /\
+     py_int0 (45 :: s) = Some (- positional 10 (map dec_digit s))) /\
+  (* all zeros: 0 *)
+  (Z.of_nat (length s) <= 4300 -> (forall c, In c s -> c = 48) -> py_int0 s = Some 0 /\ py_int0 (45 :: s) = Some 0) /\
+  (* a leading zero before anything else than zeros: refused *)
+  (leading_zero s = true -> (exists c, In c s /\ c <> 48) -> py_int0 s = None /\ py_int0 (45 :: s) = None) /\
+  (* more than 4300 characters: refused *)
+  (Z.of_nat (length s) > 4300 -> py_int0 s = None /\ py_int0 (45 :: s) = None).
+Proof.
+  intros s HF Hne.
+  assert (Hneg : py_int0 (45 :: s) = match py_int0_unsigned s with Some z => Some (- z) | None => None end).
+  { rewrite py_int0_cons. reflexivity. }
+  rewrite Hneg, dec_head_not_minus by assumption. rewrite py_unsigned_dec by assumption.
+  split; [|split; [|split]].
+  - intros Hl Hz. replace (Z.of_nat (length s) >? 4300) with false by lia. rewrite Hz.
+    rewrite digits_value_positional. rewrite (map_ext_Forall is_dec_char hexval dec_digit s hexval_dec HF).
+    split; reflexivity.
+  - intros Hl Hz. replace (Z.of_nat (length s) >? 4300) with false by lia.
+    apply all_zero_iff in Hz. rewrite Hz. rewrite all_zero_digits_value by assumption.
+    destruct (leading_zero s); split; reflexivity.
+  - intros Hz Hc. apply all_zero_false in Hc. rewrite Hz, Hc.
+    destruct (Z.of_nat (length s) >? 4300); split; reflexivity.
+  - intros Hl. replace (Z.of_nat (length s) >? 4300) with true by lia. split; reflexivity.
+Qed.
+
+(* 1d. exactly which literals of the token pattern are refused *)
+Lemma ushape_head u : ushape u -> exists c t, u = c :: t /\ 48 <= c <= 57.
+Proof.
+  intros H. destruct H as [h _ _ | b _ _ | d Hne HF].
+  - exists 48, (120 :: h). split; [reflexivity | lia].
+  - exists 48, (98 :: b). split; [reflexivity | lia].
+  - destruct d as [|c t]; [congruence|]. exists c, t. split; [reflexivity|].
+    inversion HF; assumption.
+Qed.
+
+Lemma dec_rejected_dec u : dec_rejected u -> Forall is_dec_char u.
+Proof. intros [H _]. exact H. Qed.
+
+Lemma py_unsigned_none_iff u : ushape u -> (py_int0_unsigned u = None <-> dec_rejected u).
+Proof.
+  intros H. destruct H as [h _ _ | b _ _ | d Hne HF].
+  - rewrite py_unsigned_cons2. cbn. split; [discriminate|].
+    intros [HF _]. inversion HF as [|? ? _ HF1]; subst. inversion HF1 as [|? ? Hx _]; subst.
+    unfold is_dec_char in Hx. lia.
+  - rewrite py_unsigned_cons2. cbn. split; [discriminate|].
+    intros [HF _]. inversion HF as [|? ? _ HF1]; subst. inversion HF1 as [|? ? Hx _]; subst.
+    unfold is_dec_char in Hx. lia.
+  - rewrite py_unsigned_dec by assumption. unfold dec_rejected.
+    destruct (Z.of_nat (length d) >? 4300) eqn:El.
+    + split; [intros _; split; [exact HF | left; lia] | reflexivity].
+    + destruct (leading_zero d) eqn:Ez.
+      * destruct d as [|c1 [|c2 t]]; try discriminate Ez. cbn [leading_zero] in Ez.
+        apply Z.eqb_eq in Ez. subst c1.
+        destruct (all_zero (48 :: c2 :: t)) eqn:Ea.
+        -- split; [discriminate|]. intros [_ [Hl | (t' & Et & _ & c & Hc & Hn)]]; [lia|].
+           injection Et as <-. rewrite all_zero_iff in Ea. exfalso. apply Hn. apply Ea. right. exact Hc.
+        -- split; [|reflexivity]. intros _. split; [exact HF|]. right.
+           exists (c2 :: t). split; [reflexivity|]. split; [discriminate|].
+           apply all_zero_false in Ea. destruct Ea as (c & [<- | Hc] & Hn); [congruence|].
+           exists c. split; assumption.
+      * split; [discriminate|]. intros [_ [Hl | (t' & Et & Hne' & _)]]; [lia|].
+        subst d. destruct t' as [|c2 t]; [congruence|]. cbn [leading_zero] in Ez. discriminate Ez.
+Qed.
+
+Lemma py_int0_none_iff_lem : forall s, imm_shape s ->
+  (py_int0 s = None <-> exists u, (s = u \/ s = 45 :: u) /\ dec_rejected u).
+Proof.
+  intros s [Hs | (u0 & -> & Hu)].
+  - destruct (ushape_head s Hs) as (c & t & -> & Hc).
+    rewrite py_int0_cons. replace (c =? 45) with false by lia.
+    rewrite (py_unsigned_none_iff _ Hs). split.
+    + intros H. exists (c :: t). split; [left; reflexivity | exact H].
+    + intros (u & [<- | E] & H); [exact H|]. injection E as -> _. lia.
+  - rewrite py_int0_cons. change (45 =? 45) with true. cbv iota.
+    split.
+    + intros H. exists u0. split; [right; reflexivity|]. apply (py_unsigned_none_iff _ Hu).
+      destruct (py_int0_unsigned u0); [discriminate | reflexivity].
+    + intros (u & [<- | E] & H).
+      * apply dec_rejected_dec in H. inversion H as [|? ? Hx _]; subst. unfold is_dec_char in Hx. lia.
+      * injection E as <-. apply (py_unsigned_none_iff _ Hu) in H. rewrite H. reflexivity.
+Qed.
+
+(* every literal of the token pattern that is accepted denotes an integer: nothing else can happen *)
+Lemma py_int0_total_lem : forall s, imm_shape s ->
+  (exists z, py_int0 s = Some z) \/ (exists u, (s = u \/ s = 45 :: u) /\ dec_rejected u).
+Proof.
+  intros s Hs. destruct (py_int0 s) as [z|] eqn:E; [left; exists z; reflexivity | right].
+  apply py_int0_none_iff_lem; assumption.
 Qed.
